@@ -112,7 +112,9 @@ class RDriver(object):
         out = r[2] if len(r) > 2 and isinstance(r[2], bytes) else b''
         ok, code = r[0] == 'ok', (r[1] if r[0] == 'err' else 0)
         m = _TRAPPED.search(out)
-        if ok and m:                       # the refusal was caught by the active error trap: its handler printed ERR
+        if m and r[0] in ('ok', 'cut'):
+            # the refusal was caught by an active error trap (armed by a probe scenario or left armed by the program's last
+            # RUN): the handler printed ERR (and may have resumed into the program, which is then cut by the statement budget)
             ok, code = False, int(m.group(1))
         e = {'op': 'renum', 'new': new, 'old': old, 'inc': inc, 'stmt': text if via is None else 'line %d: RENUM %s' % (via, ','.join(args)),
              'ok': ok, 'code': code, 'out': out.decode('latin-1'),
@@ -348,10 +350,18 @@ def run(ctx):
                 if g['n'] == 0 and (g['s'].endswith('RESUME ') or g['s'].endswith('ON ERROR GOTO ')):
                     g['n'] = 1
             lines.append((n, t))
+        # 0 after ON ERROR GOTO / RESUME never denotes a line: a handler renumbered to 0 reads as "trapping off" (GW quirk, notes 3a);
+        # programs with such references get no line 0, neither entered nor by RENUM 0
+        zero_sensitive = any(g['n'] != NOREF and (g['s'].endswith('ON ERROR GOTO ') or g['s'].endswith('RESUME ')) for (_, t) in lines for g in t)
+        if zero_sensitive and lines and lines[0][0] == 0:
+            lines = lines[1:]
+            nums = nums[1:]
         inprog = rng.random() < 0.12 and len(nums) >= 2
         d.tag = {'trap_below_old': False, 'src': 'structure'}
+        def nozero(na):
+            return ((1,) + tuple(na[1:])) if (zero_sensitive and na[0] == 0) else na
         if inprog:
-            na = renum_args(rng, nums)
+            na = nozero(renum_args(rng, nums))
             i = rng.randrange(len(lines))
             segs, first = [], True
             for x in na:
@@ -369,7 +379,7 @@ def run(ctx):
         for _ in range(rng.randint(1, 4)):
             if not d.nums:
                 break
-            na = renum_args(rng, d.nums, legal=0.6)
+            na = nozero(renum_args(rng, d.nums, legal=0.6))
             e = d.renum(*na)
             if e['kind'] == 'internal':
                 break
@@ -427,6 +437,8 @@ def run(ctx):
         d.run()
         for _ in range(rng.randint(1, 2)):
             na = renum_args(rng, d.nums, legal=0.92)
+            if na[0] == 0:
+                na = (1,) + tuple(na[1:])      # no line 0: `RESUME 0` / `ON ERROR GOTO 0` would stop denoting a line (notes 3a)
             e = d.renum(*na)
             if e['kind'] == 'internal':
                 break
